@@ -323,6 +323,98 @@ pub fn j_provider(pi: usize, ts: TimeScale, c: i128, prov: &Providers, out: &mut
     }
 }
 
+// Mode A: operation sequences mixing conversions (UTC <-> TAI <-> GPST <-> TT) and +- durations, starting next to
+// leap seconds; the model state is the TAI instant, the implementation state is (scale, count)
+struct Seq {
+    leap: LeapTable,
+    inits: Vec<(u8, i128)>,
+    depth: usize,
+}
+const SEQ_SCALES: [TimeScale; 4] = [TimeScale::UTC, TimeScale::TAI, TimeScale::GPST, TimeScale::TT];
+const SEQ_STEPS: [i128; 8] = [NS, -NS, 1, -1, 37 * NS, -10 * NS, 86_400 * NS, -86_400 * NS - NS / 2];
+impl crate::engine::SeqSpec for Seq {
+    /// (scale index, implementation count) — the model instant is recomputed from it by the oracle at every step
+    type S = (u8, i128);
+    fn inits(&self) -> Vec<Self::S> {
+        self.inits.clone()
+    }
+    fn n_actions(&self) -> usize {
+        4 + 8
+    }
+    fn action_name(&self, a: usize) -> String {
+        if a < 4 {
+            format!("to_time_scale({})", scale_name(SEQ_SCALES[a]))
+        } else {
+            format!("+({} ns)", SEQ_STEPS[a - 4])
+        }
+    }
+    fn state_name(&self, s: &Self::S) -> String {
+        format!("{} {}", scale_name(SEQ_SCALES[s.0 as usize]), s.1)
+    }
+    fn max_depth(&self) -> usize {
+        self.depth
+    }
+    fn step(&self, s: &Self::S, a: usize, path: &[u16], out: &mut Local) -> Option<Self::S> {
+        use crate::oracle::scales::{from_tai, to_tai};
+        let src = SEQ_SCALES[s.0 as usize];
+        let e = Epoch::from_duration(mk(s.1), src);
+        let args = vec![scale_name(src).to_string(), enc(s.1), a.to_string()];
+        if a >= 4 {
+            // arithmetic acts on the count in the epoch's own scale (C04); nothing to judge here but the result
+            let d = SEQ_STEPS[a - 4];
+            let r = guard(|| e + mk(d));
+            return match r {
+                Ok(x) if x.time_scale == src && alpha(x.duration) == s.1 + d => {
+                    out.ok(1, false, 200 + a as u64);
+                    Some((s.0, s.1 + d))
+                }
+                Ok(x) => {
+                    out.viol("c06.seq", "add-wrong".into(), args, enc(s.1 + d), format!("{} {} (path {path:?})", scale_name(x.time_scale), alpha(x.duration)));
+                    None
+                }
+                Err(p) => {
+                    out.viol("c06.seq", format!("panic:{}", p.class()), args, "no panic".into(), p.msg);
+                    None
+                }
+            };
+        }
+        let dst = SEQ_SCALES[a];
+        let tai = to_tai(s.1, src, &self.leap)?;
+        let r = guard(|| e.to_time_scale(dst));
+        match (r, from_tai(tai, dst, &self.leap)) {
+            (Ok(x), Some(want)) => {
+                if x.time_scale == dst && alpha(x.duration) == want {
+                    let near = self.leap.entries.iter().any(|(ts, d)| (tai - (*ts + *d) as i128 * NS).abs() <= 40 * NS);
+                    out.ok(1, near, (s.0 as u64) * 4 + a as u64);
+                    if out.want_sample(near && path.len() > 3) {
+                        out.sample("c06.seq", args, format!("path {path:?} -> {} {}", scale_name(dst), want), true);
+                    }
+                    Some((a as u8, want))
+                } else {
+                    out.viol("c06.seq", format!("conversion-wrong,{}->{},diff={}", scale_name(src), scale_name(dst), diffclass(alpha(x.duration), want)), args, format!("{} {want}", scale_name(dst)), format!("{} {} (path {path:?})", scale_name(x.time_scale), alpha(x.duration)));
+                    None
+                }
+            }
+            (Ok(x), None) => {
+                // inside an inserted interval: value don't-care, bounded by the inserted amount; continue from the
+                // implementation's own answer (any UTC count is a valid state)
+                let (ts, ins) = self.leap.inserted_interval(tai).unwrap();
+                if (alpha(x.duration) - ts).abs() <= ins {
+                    out.dc(1);
+                    Some((a as u8, alpha(x.duration)))
+                } else {
+                    out.viol("c06.seq", "inserted-interval-gross".into(), args, format!("within {ins} of {ts}"), enc(alpha(x.duration)));
+                    None
+                }
+            }
+            (Err(p), _) => {
+                out.viol("c06.seq", format!("panic:{}", p.class()), args, "no panic".into(), p.msg);
+                None
+            }
+        }
+    }
+}
+
 pub fn load() -> LeapTable {
     LeapTable::load().expect("leap table").0
 }
@@ -331,7 +423,7 @@ pub fn run(rep: &mut Report) {
     let deep = !rep.quick();
     let q = false;
     let leap = load();
-    rep.rule = "built-in table, reverse iteration, indexing and the file provider against the IERS list parsed from data/leap-seconds.list and naif0012.txt; UTC and TAI instants: every whole second from -45 s to +85 s around each of the 28 IERS and 14 SOFA entries x sub-second offsets {0, 1 ns, 1/2 s, 1 s - 1 ns}, windows of every nanosecond round each entry, the duration lattice within +-10 500 years; providers: files written for every prefix of the IERS list (0..28 entries) and 5 format variants x the instants x scales. Oracle: table lookup on integers; TAI->UTC defined as the inverse of UTC->TAI, inserted intervals are don't-cares for the value. Non-trivial = within 90 s of an entry.".into();
+    rep.rule = "built-in table, reverse iteration, indexing and the file provider against the IERS list parsed from data/leap-seconds.list and naif0012.txt; UTC and TAI instants: every whole second from -45 s to +85 s around each of the 28 IERS and 14 SOFA entries x sub-second offsets {0, 1 ns, 1/2 s, 1 s - 1 ns}, windows of every nanosecond round each entry, the duration lattice within +-10 500 years; stateright BFS over sequences mixing conversions among UTC/TAI/GPST/TT with +- steps from states next to four table entries; providers: files written for every prefix of the IERS list (0..28 entries) and 5 format variants x the instants x scales. Oracle: table lookup on integers; TAI->UTC defined as the inverse of UTC->TAI, inserted intervals are don't-cares for the value. Non-trivial = within 90 s of an entry.".into();
     rep.assumptions = vec!["the two shipped data files agree with each other and with the 28-entry digest in the harness (checked at start-up; a mismatch is a machinery error)".into()];
     sweep(rep, "c06.table", 3, |i, out| j_table(i, &leap, out));
     let lw = Some((-45i64, 85i64));
@@ -366,6 +458,19 @@ pub fn run(rep: &mut Report) {
     sweep(rep, "c06.utc_to_tai", utc.len() as u64, |i, out| j_utc(utc[i as usize], &leap, out));
     sweep(rep, "c06.tai_to_utc", tai.len() as u64, |i, out| j_tai(tai[i as usize], &leap, out));
     sweep(rep, "c06.accessor", tai.len() as u64, |i, out| j_accessor(tai[i as usize], &leap, out));
+    // operation sequences from states next to three leap seconds (and 1972-01-01), in all four scales
+    let mut inits: Vec<(u8, i128)> = vec![];
+    for (ts, d) in [leap.entries[0], leap.entries[1], leap.entries[14], leap.entries[27]] {
+        for o in [-2 * NS, -NS / 2, 0, NS / 2] {
+            inits.push((0, ts as i128 * NS + o)); // UTC
+            inits.push((1, (ts + d) as i128 * NS + o)); // TAI
+            inits.push((1, (ts + d - 1) as i128 * NS + o)); // TAI, inside/just before the inserted second
+            inits.push((2, (ts + d) as i128 * NS + o - crate::oracle::scales::zero_tai(TimeScale::GPST).unwrap()));
+        }
+    }
+    let depth = if deep { 5 } else { 4 };
+    rep.bound("seq", format!("{} initial states, 12 actions (4 conversions, 8 steps), depth {depth}", inits.len()));
+    crate::engine::bfs(rep, "c06.seq", Seq { leap: leap.clone(), inits, depth });
     let prov = make_providers(&leap);
     rep.bound("providers", prov.files.len() as u64);
     // provider lattice: whole seconds around entries + sub-second edge
@@ -387,6 +492,12 @@ pub fn replay(check: &str, a: &[String], out: &mut Local) -> bool {
         "c06.utc_to_tai" | "c06.round_trip" => j_utc(p128(&a[0]), &leap, out),
         "c06.tai_to_utc" => j_tai(p128(&a[0]), &leap, out),
         "c06.accessor" => j_accessor(p128(&a[0]), &leap, out),
+        "c06.seq" => {
+            use crate::engine::SeqSpec;
+            let sp = Seq { leap: leap.clone(), inits: vec![], depth: 1 };
+            let si = SEQ_SCALES.iter().position(|t| scale_name(*t) == a[0]).unwrap_or(0) as u8;
+            sp.step(&(si, p128(&a[1])), a[2].parse().unwrap(), &[0], out);
+        }
         "c06.provider" => {
             let prov = make_providers(&leap);
             j_provider(pu64(&a[0]) as usize, scale_from(&a[1]), p128(&a[2]), &prov, out)
